@@ -209,6 +209,8 @@ def check(spec):
         name = a.get("name")
         if kind == "reduce" and name in ("var", "std") or kind == "agg" and uses_var(a):
             compare_var(got, want, meta, case, a, **kw)
+        elif kind == "reduce" and name in ("cov", "corr"):
+            compare_cov_corr(got, want, meta, case, g, a, envp, ordered, **kw)
         else:
             D.compare(got, want, meta, **kw)
         return
@@ -329,6 +331,59 @@ def compare_var(got, want, meta, case, a, **kw):
     if not ok.all():
         raise first
     count("var-absolute-tolerance-used")
+
+
+def compare_cov_corr(got, want, meta, case, g, a, env, ordered, **kw):
+    """cov/corr: like var/std, dask evaluates the second moments with the one-pass formula
+    (sum(xy) - sum(x)sum(y)/n) / (n - 1) (groupby.py:_cov_agg), pandas with a two-pass formula.  The rounding of the
+    first is ABSOLUTE in max|x|^2: A = 1e-12 * max(1, max|x|^2) bounds it for <= 30 rows (n^2 * eps * max|x|^2).  For a
+    group whose values are nearly constant relative to their size (c = [-13.492, -13.488]: var 8e-6, error 4e-14) the
+    relative error of that variance (5e-9) exceeds the 1e-9 relative tolerance, and corr = cov / sqrt(vx vy) inherits
+    it (0.9999999977 vs 1.0).  Both are "the correlation within rounding", so after the strict comparison fails on
+    VALUES only (same index, columns, dtypes required) the entries are compared with the propagated bound
+        cov:  A        corr:  A * (1/sqrt(vx vy) + |corr|/2 * (1/vx + 1/vy))
+    where vx, vy are pandas' variances of the two columns in that group.  Groups with a zero/NaN variance get no
+    allowance."""
+    try:
+        D.compare(got, want, meta, **kw)
+        return
+    except Violation as v:
+        if v.sig.get("symptom") != "value-mismatch":
+            raise
+        first = v
+    if not (isinstance(got, pd.DataFrame) and isinstance(want, pd.DataFrame)) or got.shape != want.shape or not got.size:
+        raise first
+    cols = list(want.columns)
+    k = len(cols)
+    try:
+        pd.testing.assert_index_equal(got.index, want.index)
+        pd.testing.assert_index_equal(got.columns, want.columns)
+        assert list(got.dtypes) == list(want.dtypes) and k and len(want) % k == 0
+        covw = want if a["name"] == "cov" else apply_groupby(case.base, g, dict(a, name="cov"), env)
+        if a["name"] != "cov" and not ordered:
+            covw = sort_by_keys(covw)  # the same reordering ``want`` went through
+        pd.testing.assert_index_equal(covw.index, want.index)
+        g_, w_, c_ = (np.asarray(x, dtype=float) for x in (got, want, covw))
+        # k consecutive rows per group, in column order: the diagonal of each k x k block holds the variances
+        assert list(want.index.get_level_values(-1)) == cols * (len(want) // k)
+    except (AssertionError, TypeError, ValueError):
+        raise first from None
+    x = case.base[cols].to_numpy(dtype=float)
+    scale = float(np.nanmax(np.abs(x))) if np.isfinite(x).any() else 1.0
+    A = 1e-12 * max(1.0, scale * scale)
+    if a["name"] == "cov":
+        tol = np.full(w_.shape, A)
+    else:
+        var = np.einsum("gii->gi", c_.reshape(-1, k, k))  # (groups, k)
+        # entry (group g, row i, column j): vx = var[g, i], vy = var[g, j]
+        vx, vy = np.repeat(var.reshape(-1, 1), k, axis=1), np.repeat(var, k, axis=0)
+        with np.errstate(all="ignore"):
+            tol = A * (1.0 / np.sqrt(vx * vy) + np.abs(w_) / 2.0 * (1.0 / vx + 1.0 / vy))
+        tol = np.where(np.isfinite(tol) & (vx > 0) & (vy > 0), tol, 0.0)
+    ok = np.isclose(g_, w_, rtol=1e-9, atol=0.0, equal_nan=True) | (np.abs(g_ - w_) <= tol)
+    if not ok.all():
+        raise first
+    count("cov-corr-rounding-bound-used")
 
 
 def nontrivial(spec):
